@@ -31,6 +31,8 @@ def mutants(prog):
         ("resample size", G, "Grid.resample", "size = self.extent().div(spacing)", "size = self.cube_extent().div(spacing)", "op=resample"),
         ("pyramid convention", G, "Grid.pyramid", "self.resize(size)", "self.resize(size, align_corners=not self._align_corners)", "op=pyramid"),
         ("align flag lost in crop", G, "Grid.crop", "align_corners=self.align_corners(), ", "", "op=crop"),
+        ("center_crop: offset from the unclamped request", G, "Grid.center_crop", "size = [min(m, n) for m, n in zip(self.size(), size.tolist())]\n    origin = [(m - n) // 2 for m, n in zip(self.size(), size)]", "origin = [(m - n) // 2 for m, n in zip(self.size(), size.tolist())]\n    size = [min(m, n) for m, n in zip(self.size(), size.tolist())]", "op=center_crop"),
+        ("center_pad: offset from the unclamped request", G, "Grid.center_pad", "size = [max(m, n) for m, n in zip(self.size(), size.tolist())]\n    origin = [-((n - m) // 2) for m, n in zip(self.size(), size)]", "origin = [-((n - m) // 2) for m, n in zip(self.size(), size.tolist())]\n    size = [max(m, n) for m, n in zip(self.size(), size.tolist())]", "op=center_pad"),
     ]
     for name, mod, fn, old, new, expect in specs:
         ov = source_sub(prog, mod, fn, old, new)
